@@ -39,11 +39,11 @@ def main() -> None:
         })
         engines.setdefault(mf["engine"], []).append(pid)
     eng_desc = {
-        "prog": ("vlib/prog.py + vlib/gen.py", "program IR with two interpretations (tawazi build / plain-Python reference), free-algebra node functions, Hypothesis strategies"),
-        "sched": ("vlib/sched.py + vlib/oracle.py", "schedule controller: interposed wait/ThreadPoolExecutor/asyncio.wait, gated node functions, choice vectors, exhaustive choice-tree enumeration, trace oracles"),
+        "prog": ("vlib/prog.py", "(with vlib/gen.py, vlib/richgen.py, vlib/progchecks.py) program IR with two interpretations (tawazi build / plain-Python reference), free-algebra node functions, Hypothesis strategies"),
+        "sched": ("vlib/sched.py", "(with vlib/oracle.py, vlib/schedcase.py, vlib/schedchecks.py) schedule controller: interposed wait/ThreadPoolExecutor/asyncio.wait, gated node functions, choice vectors, exhaustive choice-tree enumeration, trace oracles"),
         "hist": ("vlib/hist.py", "Hypothesis rule-based state machines over API histories with a Python model"),
         "hashseed": ("vlib/c07_worker.py", "persistent worker processes with different PYTHONHASHSEED evaluating the same generated DAG"),
-        "threads": ("vlib/threads.py", "scripted multi-thread interleavings (builds paused inside the describing function)"),
+        "threads": ("vlib/checks/c16.py", "scripted multi-thread interleavings (builds paused inside the describing function)"),
     }
     manifest = {
         "version": 1,
